@@ -44,6 +44,10 @@ INTRO = [
     "s = 'x'\nprint(s.startswith('x'), s.endswith('x'), s.find('x'), s.join(['a', 'b']), s.isdigit(), s.isalpha(), s.title(), s.capitalize())",
     "x = ()\nfor a in x:\n    print(a)\nprint(len(x), x + (1,))", "pair = ()\nif not pair:\n    pair = (1, 2)\nprint(pair[0])",
     "from dataclasses import dataclass\n@dataclass\nclass P:\n    x: int\n    y: str\np = P(1, 'a')\nprint(p.x, p.y)",
+    # containers whose element / key / value types have nothing in common
+    "d = {'a': 1, 'b': 'x'}\nfor k, v in d.items():\n    for c in v:\n        print(k, c)",
+    "d = {'a': 1, 2: 'x'}\nfor k in d.keys():\n    print(k)\nfor v in d.values():\n    print(v)",
+    "s = 'ab'\nx = [len(s), s] + [3]\nprint(x)", "y = 1 if input() else 'a'\nz = [y] + [y]\nprint(z)",
 ]
 
 
@@ -118,6 +122,16 @@ def bounded(arg):
     evaluations = 0
     distinct = set()
     programs = [(f, 'form') for f in FORMS] + [(p, 'intro') for p in INTRO]
+    # a module that exits the interpreter when it is imported (as the __main__ of some packages does): TIFA imports
+    # modules it has no type table for, and must survive that
+    import os
+    import sys
+    import tempfile
+    exits_dir = tempfile.mkdtemp(prefix='c18_exits_')
+    with open(os.path.join(exits_dir, 'pedal_verif_exits_on_import.py'), 'w') as fh:
+        fh.write("raise SystemExit(3)\n")
+    sys.path.insert(0, exits_dir)
+    programs.append(("import pedal_verif_exits_on_import\nprint(1)", 'form'))
     skip = {'exit', 'quit', 'help', 'license', 'credits', 'copyright', 'breakpoint'}
     for name in sorted(BUILTIN_NAMES):
         if name.startswith('_') or name in skip:
@@ -155,6 +169,9 @@ def bounded(arg):
             if line is not None and not (1 <= line <= nlines):
                 failures.append({'id': 'issue_line', 'canon': 'issue line outside the analysed source',
                                  'detail': 'program %r: %s at line %r of %d' % (code[:80], label, line, nlines)})
+    sys.path.remove(exits_dir)
+    import shutil
+    shutil.rmtree(exits_dir, ignore_errors=True)
     # sequences on one report and across reports: the result for a code does not depend on what was analysed before
     from pedal.core.commands import clear_report, contextualize_report
     from pedal.tifa import tifa_analysis
